@@ -170,7 +170,7 @@ Print Assumptions C03_L1_is_L2.
 (* ---------- examples ---------- *)
 Definition cfg (k : kind) : config :=
   {| ckind := k; kcmp := CNat; vcmp := CNat; ccap := 0; corder := 0; cuni := 3 |}.
-Definition three (f : kind -> list Z) : list (list Z) := [f ArrayList; f SinglyLinkedList; f DoublyLinkedList].
+Definition three {A} (f : kind -> A) : list A := [f ArrayList; f SinglyLinkedList; f DoublyLinkedList].
 Definition vals (ops : list op) : list (list Z) := three (fun k => values_of (cfg k) (run (cfg k) ops)).
 
 (* Insert at size appends; at size + 1 and at -1 it does nothing; with no values it does nothing *)
@@ -223,7 +223,7 @@ Proof. vm_compute; reflexivity. Qed.
    with duplicates, Contains with zero / duplicate / missing values *)
 Example ex_observers :
   three (fun k => map (fun i => get_obs (cfg k) [5; 6; 6; 7] i) [-1; 0; 1; 2; 3; 4]) =
-    let r := [None; Some 5; Some 6; Some 6; Some 7; None] in [r; r; r] /\
+    (let r := [None; Some 5; Some 6; Some 6; Some 7; None] in [r; r; r]) /\
   three (fun k => map (index_of_obs (cfg k) [5; 6; 6; 7]) [6; 7; 8]) = [[1; 3; -1]; [1; 3; -1]; [1; 3; -1]] /\
   map (fun vs => seq_contains vs [5; 6; 6; 7]) [[]; [6; 6]; [7; 5]; [5; 8]] = [true; true; true; false] /\
   map (fun vs => sll_contains vs []) [[]; [1]] = [true; false].
